@@ -39,6 +39,9 @@ let () =
   let lines = read_lines Sys.argv.(1) in
   let n = ref 0 and mism = ref 0 and viol = ref 0 in
   let cache = Hashtbl.create 997 in
+  (* capacities: when the producers have gone quiet before the cancel (mode ...@q) and more items are unread than
+     the pipeline can hold, exactly `capacity` items are buffered; entry -> (bound, max further seen, runs) *)
+  let full = Hashtbl.create 7 in
   List.iteri (fun ln line ->
     match split_ws line with
     | "Q" :: entry :: nc :: ns :: k :: mode :: rest ->
@@ -70,6 +73,11 @@ let () =
               if get "watchdog" = "0" && int_of_nat g1 <> gi "read" then
                 why := Printf.sprintf "items read before cancelling: model %d, implementation %d" (int_of_nat g1) (gi "read") :: !why;
               capn in
+        let lm = String.length mode in
+        if lm > 2 && String.sub mode (lm - 2) 2 = "@q" && get "stall" = "-" && gi "total" - gi "read" >= bound + 8
+           && get "leaked" = "0" && get "watchdog" = "0" then begin
+          let (_, mx, cnt) = try Hashtbl.find full entry with Not_found -> (bound, 0, 0) in
+          Hashtbl.replace full entry (bound, max mx (gi "further"), cnt + 1) end;
         if gi "read" + gi "further" > gi "total" then why := "more items delivered than the stream holds" :: !why;
         if not (c06_ok (nat_of_int (gi "leaked")) (nat_of_int (gi "further")) (nat_of_int bound) (get "watchdog" = "1")) then begin
           incr viol;
@@ -80,4 +88,9 @@ let () =
     | "STOP" :: _ -> Printf.printf "note: %s (the harness gave up enumerating)\n" line
     | [] -> ()
     | _ -> failwith ("unknown line: " ^ line)) lines;
+  Hashtbl.iter (fun entry (bound, mx, cnt) ->
+      if mx <> bound then begin
+        incr mism;
+        Printf.printf "MISMATCH 0 capacity %s :: the model's capacity is %d, but with full buffers at most %d further items were delivered in %d runs\n"
+          entry bound mx cnt end) full;
   Printf.printf "SUMMARY cases=%d mismatches=%d violations=%d\n" !n !mism !viol
